@@ -245,6 +245,10 @@ def key_loop(repo, run, rule, rule_new=None):
         if not sets and not rems:
             if NEW is not None and _same(p, NEW, CH):
                 ok(rule, merges[0], desc, 'in-place merge result kept (the merge returned the existing child)')
+            elif any('__match_' in t or ' is True' in t or ' is False' in t or 'isinstance((' in t for t, _ in p.facts):
+                # the case analysis is written over a tuple of booleans (a match statement): whether `merged is child` holds on this
+                # path cannot be read off the facts
+                raise AnalysisError('ComposedNode.on_merge_impl: the per-key case analysis (%s) is not recognised' % tr.describe(p, 3)[:120])
             else:
                 viol(rule, lk[0], desc, 'a key of the newer mapping is neither attached, merged in place nor removed on this path')
             continue
